@@ -272,3 +272,13 @@ def call_contexts():
     """Calling contexts in which a component must give the same answer as in a plain call."""
     import torch
     return [("no_grad", torch.no_grad), ("inference_mode", torch.inference_mode)]
+
+
+def noncontiguous(x):
+    """A tensor equal to x whose last dimension is a stride-2 view into a larger buffer (non-contiguous unless that dimension has one element)."""
+    import torch
+    if x.dim() == 0:
+        return x
+    big = torch.zeros(tuple(x.shape[:-1]) + (2 * x.shape[-1],), dtype=x.dtype)
+    big[..., ::2] = x
+    return big[..., ::2]
